@@ -64,6 +64,10 @@ def c01d(db, res):
     for fld in ('in_tx', 'out_tx'):
         ok = any(is_lit(w['r'], 0) and any(a == ('connp->' + fld, '==', 'tx') for a, e in P.facts_at(g, b)) for b, i, w in P.field_writes(g, fld))
         res.check(ok, 'C01.d', 'htp_connp_tx_remove:clears-' + fld, 'connp->%s is cleared when it is the transaction' % fld, 'htp_connp_tx_remove no longer clears connp->%s == tx' % fld, g.loc)
+        other = 'connp->' + ('out_tx' if fld == 'in_tx' else 'in_tx')
+        dep = [a for b, i, w in P.field_writes(g, fld) if is_lit(w['r'], 0) for a, e in P.facts_at(g, b) if a[0] == other]
+        res.check(not dep, 'C01.d', 'htp_connp_tx_remove:%s-independent' % fld, 'the two slots are cleared independently',
+                  'clearing connp->%s depends on a test of %s (%s): a transaction that is both in_tx and out_tx keeps one dangling slot after it is destroyed' % (fld, other, dep[:1]), g.loc)
     h = db.get('htp_conn_remove_tx')
     reps = h.calls('htp_list_array_replace')
     ok = len(reps) == 1 and is_lit(reps[0][2]['args'][2], 0) and not [c for b, i, c in h.calls() if c.get('callee') in ('htp_list_array_shift', 'htp_list_array_pop')]
@@ -219,6 +223,113 @@ def c01f(db, res, nl):
     res.floor('C01.f', 'container lookups', n, 40)
 
 
+def c01h(db, res):
+    """state-machine re-dispatch: `goto LABEL` back to a switch on a state field, taken after the cursor was advanced,
+    bypasses the enclosing `while (pos < len)`; the arm selected by the state constant assigned just before the goto
+    must re-test the cursor before it reads data[pos]."""
+    from .. import guards as G
+    res.rule('C01.h', 'state-machine re-dispatch by goto: after a goto back to the state switch the selected arm re-tests the cursor against the length before its first read (the jump bypasses the enclosing loop guard)')
+    n = 0
+    for name, f in sorted(db.fn.items()):
+        labels = {b: blk['label'].get('name') for b, blk in f.blocks.items() if blk.get('label', {}).get('kind') == 'LabelStmt'}
+        if not labels:
+            continue
+        pairs = G.pairs_of(f)
+        for lb, lname in labels.items():
+            # the label must lead to a switch on a member field
+            sw = None
+            w = [lb]
+            seen = set()
+            while w and sw is None:
+                x = w.pop()
+                if x in seen:
+                    continue
+                seen.add(x)
+                if f.blocks[x].get('term', {}).get('kind') == 'SwitchStmt':
+                    sw = x
+                    break
+                if len([s for s in f.blocks[x]['succs'] if s is not None]) == 1:
+                    w += [s for s in f.blocks[x]['succs'] if s is not None]
+            if sw is None or not f.blocks[sw]['stmts']:
+                continue
+            field = P.K(f.blocks[sw]['stmts'][-1])
+            for gb in f.preds.get(lb, []):
+                if f.blocks[gb].get('term', {}).get('kind') != 'GotoStmt':
+                    continue
+                # constant assigned to the state field in the goto's block
+                const = None
+                for st in f.blocks[gb]['stmts']:
+                    for a in nodes(st, lambda y: y.get('k') == 'assign' and P.K(y['l']) == field and strip(y['r']).get('k') == 'lit'):
+                        const = strip(a['r'])
+                if const is None:
+                    continue
+                n += 1
+                target = None
+                for s in f.blocks[sw]['succs']:
+                    if s is not None and f.blocks[s].get('label', {}).get('kind') == 'CaseStmt' and f.blocks[s]['label'].get('v') == const['v']:
+                        target = s
+                if target is None:
+                    continue
+                # first event on the selected arm: a test of an index against its paired length, or a read through it
+                verdict = [None]
+
+                def visit(bb, ii, st):
+                    for x in nodes(st, lambda y: y.get('k') == 'index' and P.K(y['base']) in pairs):
+                        t = G.term(x['idx'])
+                        if t and t[0] not in ('0',):
+                            verdict[0] = ('read', x, t[0], pairs[P.K(x['base'])])
+                            return True
+                    a = P.canon(st) if f.cond_of(bb) and f.blocks[bb]['stmts'][-1] is st else None
+                    if a and a[1] in ('<', '>=') and a[2] in pairs.values():
+                        verdict[0] = ('test', st)
+                        return True
+                    return False
+                C.forward(f, (target, -1), visit, edge_ok=lambda bb, j: True)
+                key = '%s:goto-%s:state=%s' % (name, lname, const.get('name') or const['v'])
+                if verdict[0] and verdict[0][0] == 'read':
+                    kind, x, v, L = verdict[0]
+                    # is the cursor known to be below the length at the goto? (guard analysis facts at the goto block)
+                    proved = [False]
+
+                    def on_index(xx, fs, b2, i2):
+                        pass
+                    # evaluate the facts at the end of the goto block
+                    facts_end = {}
+
+                    def grab(xx, fs, b2, i2):
+                        if b2 == gb:
+                            facts_end['k'] = fs.get((v, L), -G.INF)
+                    G.analyse(f, grab)
+                    # no subscript in the goto block: recompute by running the block transfer
+                    kk = facts_end.get('k')
+                    if kk is None:
+                        kk = _facts_at_block_end(f, gb, v, L)
+                    res.check(kk >= 0, 'C01.h', key, 'the cursor is below the length at the jump',
+                              '%s advances %s and jumps back to the state switch with %s = %s; that arm reads %s[%s] at once, but the jump bypasses the `%s < %s` loop test and nothing re-tests it: when the chunk ends right there the read is one byte past the caller\'s buffer' % (
+                                  name, v, field, const.get('name') or const['v'], P.K(x['base']), v, v, L), x['loc'])
+                else:
+                    res.holds('C01.h', key, 'the selected arm re-tests the cursor before reading', f.blocks[gb]['stmts'][-1]['loc'] if f.blocks[gb]['stmts'] else f.loc)
+    res.analysed['C01.h re-dispatch gotos with a constant state'] = n
+
+
+def _facts_at_block_end(f, gb, v, L):
+    from .. import guards as G
+    out = {}
+    # run the analysis and capture the state at the end of block gb by appending a probe through on_index of successors is not possible;
+    # instead recompute: IN[gb] is not exposed, so run a tiny re-implementation using analyse's callback on a synthetic subscript
+    blk = f.blocks[gb]
+    probe = {'k': 'index', 'base': {'k': 'var', 'name': '__probe__'}, 'idx': {'k': 'var', 'name': v}, 'loc': ''}
+    blk['stmts'].append(probe)
+    try:
+        def cb(x, fs, b2, i2):
+            if x is probe:
+                out['k'] = fs.get((v, L), -G.INF)
+        G.analyse(f, cb)
+    finally:
+        blk['stmts'].pop()
+    return out.get('k', -G.INF)
+
+
 def run(repo='/repo', tier='quick'):
     res = Result('C01')
     db = load(repo)
@@ -230,6 +341,7 @@ def run(repo='/repo', tier='quick'):
     c01e(db, res)
     c01f(db, res, nl)
     c01g(db, res)
+    c01h(db, res)
     try:
         from . import c01b
         c01b.run(db, res)
